@@ -1008,6 +1008,20 @@ pub fn run(args: &Args) {
         cx.rng = r;
         pazip_case(&mut cx, k % 6, dk, &ps, &t);
     }
+    // dictionaries larger than 64 KiB: a phrase that occurs only at dictionary offset 65534..65537 (the Global record
+    // stores offset and length in 16 bits each; a match that does not fit must not be chosen, or must be written faithfully)
+    for (k, &off) in [65534usize, 65535, 65536, 65537, 70_000].iter().enumerate() {
+        if !th && k == 4 { continue; }
+        let mut r = cx.rng.clone();
+        let filler: Vec<u8> = { let alpha = b"ABCDEFGHIJKLMNOPQRSTUVWXYZ0123456789\n"; (0..off).map(|_| alpha[r.below(alpha.len() as u64) as usize]).collect() };
+        let phrase: &[u8] = b"closing words of the corpus, in lower case";
+        let mut t = filler.clone(); t.extend_from_slice(phrase);
+        if k % 2 == 1 { t.extend_from_slice(&filler[..300]); }
+        let mut p2 = filler[100..140].to_vec(); p2.extend_from_slice(phrase); p2.extend_from_slice(&filler[off - 60..off - 10]);
+        cx.rng = r;
+        cx.sum.dist("pazip_dictionary_over_64k");
+        pazip_case(&mut cx, [0usize, 2, 4, 1, 3][k], 2, &[phrase.to_vec(), p2], &t);
+    }
     // record writer vs reader of the legacy byte format, every kind at its distance / length boundaries
     let periods = [1usize, 2, 3, 9, 10, 200, 257, 258, 259, 4000, 65535, 65536, 65793, 65794, 70000];
     let lens = [1u64, 2, 3, 5, 6, 32, 33, 34, 35, 64, 65, 255, 256, 257, 300];
